@@ -30,6 +30,10 @@ V(t) == (IF t.res = "ok" THEN {} ELSE {<<l, "RestoreFailed">>})
         \cup (IF Same(t.a, t.b) THEN {} ELSE {<<l, "RestoreIntoKnownDiffers">>})
         \cup (IF Same(t.a, t.c) THEN {} ELSE {<<l, "RestoreFromScratchDiffers">>})
         \cup (IF NoDup(t.a) /\ NoDup(t.b) /\ NoDup(t.c) THEN {} ELSE {<<l, "ReplicaListedTwice">>})
+        \* C10: a write is applied here iff this node is one of the owner's replicas - for the follower as for the reference
+        \cup (IF \A i \in 1..Len(t.b) : \A j \in 1..Len(t.b[i].parts) :
+                    t.b[i].parts[j].route = (IF \E k \in 1..Len(t.b[i].parts) : t.b[i].parts[k].pnodes = <<>> THEN "none" ELSE IF 1 \in SetOf(t.b[i].parts[j].pnodes) THEN "local" ELSE "forward")
+              THEN {} ELSE {<<l, "RouteStale">>})
         \* a replica this node hosts when the snapshot arrives and keeps hosting: its raft log is still there afterwards
         \* (before / after: the log's last index; it only grows while the replica stays - Catalogue!StoresKept)
         \cup (IF \A k \in 1..Len(t.kept) : t.kept[k].after >= t.kept[k].before THEN {} ELSE {<<l, "ReplicaStoreLost">>})
